@@ -26,7 +26,9 @@ pub assume_specification [ f64::max ] (a: f64, b: f64) -> (r: f64) ensures r == 
 // shims: the body IS the replaced expression
 #[verifier::external_body] fn vx_u64_as_f64(n: u64) -> (r: f64) ensures r == u64_to_f64(n) { n as f64 }
 #[verifier::external_body] fn vx_fdiv(a: f64, b: f64) -> (r: f64) ensures r == fdiv(a, b) { a / b }
-#[verifier::external_body] fn vx_theta_out_of_range(theta: f64) -> (r: bool) ensures r == !theta_ok(theta) { theta <= 0.0 || theta > 1.0 }
+// theta_ok(t) means 0 < t <= 1 (false for NaN).  For NaN the real check `theta <= 0.0 || theta > 1.0` is false as well, so the contract is
+// one implication each way, the second only off NaN (KX shim_theta_out_of_range_contract, complete over every f64).
+#[verifier::external_body] fn vx_theta_out_of_range(theta: f64) -> (r: bool) ensures theta_ok(theta) ==> !r, (!r && !fnan(theta)) ==> theta_ok(theta), fnan(theta) ==> !r { theta <= 0.0 || theta > 1.0 }
 #[verifier::external_body] fn vx_fzero() -> (r: f64) ensures r == fzero() { 0.0 }
 
 enum NumStdDev {
@@ -40,7 +42,8 @@ struct Error { k: u8 }
 #[verifier::external_body] fn compute_approx_binomial_upper_bound(num_samples: u64, theta: f64, num_std_dev: NumStdDev) -> f64 { unimplemented!() }
 
 fn lower_bound ( num_samples : u64 , theta : f64 , num_std_dev : NumStdDev , ) -> ( r : Result < f64 , Error > ) ensures
-/*@C01.theta.lb_le_est*/ r matches Ok ( lb ) ==> fle ( lb , fdiv ( u64_to_f64 ( num_samples ) , theta ) ) ,
+/*@C01.theta.lb_le_est*/ ! fnan ( theta ) ==> ( r matches Ok ( lb ) ==> fle ( lb , fdiv ( u64_to_f64 ( num_samples ) , theta ) ) ) ,
+/*@C01.theta.lb_rejects*/ ( ! fnan ( theta ) && ! theta_ok ( theta ) ) ==> r is Err ,
 /*@C01.theta.lb_total*/ theta_ok ( theta ) ==> r is Ok , {
 if vx_theta_out_of_range ( theta ) {
 return Err ( vx_invalid_argument ( ) ) ;
@@ -48,14 +51,17 @@ return Err ( vx_invalid_argument ( ) ) ;
 let estimate = vx_fdiv ( vx_u64_as_f64 ( num_samples ) , theta ) ;
 let lb = compute_approx_binomial_lower_bound ( num_samples , theta , num_std_dev ) ;
 proof {
+if ! fnan ( theta ) {
 leaf_div_not_nan ( num_samples , theta ) ;
 leaf_min_max_bracket ( estimate , u64_to_f64 ( num_samples ) , lb ) ;
+}
 }
 Ok ( estimate . min ( ( vx_u64_as_f64 ( num_samples ) ) . max ( lb ) ) ) }
 
 
 fn upper_bound ( num_samples : u64 , theta : f64 , num_std_dev : NumStdDev , no_data_seen : bool , ) -> ( r : Result < f64 , Error > ) ensures
-/*@C01.theta.est_le_ub*/ ! no_data_seen ==> ( r matches Ok ( ub ) ==> fle ( fdiv ( u64_to_f64 ( num_samples ) , theta ) , ub ) ) ,
+/*@C01.theta.est_le_ub*/ ( ! no_data_seen && ! fnan ( theta ) ) ==> ( r matches Ok ( ub ) ==> fle ( fdiv ( u64_to_f64 ( num_samples ) , theta ) , ub ) ) ,
+/*@C01.theta.ub_rejects*/ ( ! no_data_seen && ! fnan ( theta ) && ! theta_ok ( theta ) ) ==> r is Err ,
 /*@C01.theta.ub_no_data*/ no_data_seen ==> r == Ok :: < f64 , Error > ( fzero ( ) ) ,
 /*@C01.theta.ub_total*/ ( no_data_seen || theta_ok ( theta ) ) ==> r is Ok , {
 if no_data_seen {
@@ -67,8 +73,10 @@ return Err ( vx_invalid_argument ( ) ) ;
 let estimate = vx_fdiv ( vx_u64_as_f64 ( num_samples ) , theta ) ;
 let ub = compute_approx_binomial_upper_bound ( num_samples , theta , num_std_dev ) ;
 proof {
+if ! fnan ( theta ) {
 leaf_div_not_nan ( num_samples , theta ) ;
 leaf_min_max_bracket ( estimate , estimate , ub ) ;
+}
 }
 Ok ( estimate . max ( ub ) ) }
 
